@@ -56,8 +56,11 @@ type vsrvScript struct {
 	ALPSData      []byte
 	ExtraEEExts   []vfExt
 	// ---- Certificate ----
-	Cert         *Certificate // nil = cfg.Certificates[0]
-	CompressAlg  uint16       // 0 = plain Certificate message
+	Cert *Certificate // nil = cfg.Certificates[0]
+	// CertBody, when set, rewrites the body of the Certificate message (after the 4-byte header) before it is sent
+	// or compressed: structurally valid but hostile certificate lists
+	CertBody     func(body []byte) []byte
+	CompressAlg  uint16 // 0 = plain Certificate message
 	CompressFn   func(certMsg []byte) (compressed []byte, declaredLen uint32)
 	CertRequest  bool
 	SendTicket   bool
@@ -497,6 +500,9 @@ func vsrvRun13(ctx context.Context, c *Conn, s *vsrvScript) error {
 			certRaw, err := certMsg.marshal()
 			if err != nil {
 				return err
+			}
+			if s.CertBody != nil {
+				certRaw = vsrvMsg(typeCertificate, s.CertBody(certRaw[4:]))
 			}
 			if s.CompressAlg != 0 {
 				compressed, declared := s.CompressFn(certRaw[4:])
